@@ -15,7 +15,7 @@ use super::metadata::{MetadataField, ModelMetadata};
 use super::{Model, ModelOptions, OptimizeMode};
 use crate::constant_storage::{ArcSlice, ArcTensorView};
 use crate::graph::{
-    CaptureEnv, Constant, ConstantNode, ConstantNodeData, Dimension, Graph, NodeId,
+    CaptureEnv, Constant, ConstantNode, ConstantNodeData, Dimension, Graph, Node, NodeId,
 };
 use crate::op_registry::onnx_registry::{ConstInput, DynParsedOp, OpLoadContext};
 use crate::op_registry::{OpRegistry, ReadOpError};
@@ -382,6 +382,21 @@ pub(crate) fn load_constant(
     let shape: Result<Vec<usize>, _> = initializer.dims.iter().map(|&dim| dim.try_into()).collect();
     let shape =
         shape.map_err(|_| load_error!(GraphError, name, "initializer has invalid shape"))?;
+
+    // Reject shapes whose element count, or the strides of a tensor with this
+    // shape, would overflow. Zero-sized dimensions are treated as having size
+    // one, which gives an upper bound for the strides.
+    if shape
+        .iter()
+        .try_fold(1usize, |len, &size: &usize| len.checked_mul(size.max(1)))
+        .is_none()
+    {
+        return Err(load_error!(
+            GraphError,
+            name,
+            "initializer shape is too large"
+        ));
+    }
 
     // Check if this tensor data is stored in the .onnx file or an external file.
     let data_location = initializer
@@ -1049,6 +1064,20 @@ fn add_operator(
     // constants for the attribute values and add those inputs.
     let mut inputs = node_ids_from_names(&onnx_op.input);
     let outputs = node_ids_from_names(&onnx_op.output);
+
+    // Names of operator outputs can collide with the names of initializers or
+    // `Constant` operator outputs, in which case the name refers to a constant
+    // node rather than a value node.
+    for output_id in outputs.iter().flatten() {
+        if !matches!(graph.get_node(*output_id), Some(Node::Value(_))) {
+            return Err(load_error!(
+                GraphError,
+                onnx_op.name.as_deref(),
+                "operator output \"{}\" is not a value",
+                graph.node_name(*output_id)
+            ));
+        }
+    }
     for (idx, value) in const_inputs {
         let constant = constant_from_attr_value(value);
         let const_id = graph.add_constant_node(constant);
@@ -1437,6 +1466,21 @@ mod tests {
                 dtype: onnx::DataType::FLOAT,
                 expected: Err(
                     "in node \"init\": graph error: length 0 does not match shape [2, 3]".into(),
+                ),
+            },
+            // Shapes whose element count overflows `usize`.
+            Case {
+                shape: [1 << (usize::BITS / 2), 1 << (usize::BITS / 2)].into(),
+                dtype: onnx::DataType::FLOAT,
+                expected: Err(
+                    "in node \"init\": graph error: initializer shape is too large".into(),
+                ),
+            },
+            Case {
+                shape: [0, isize::MAX as usize, isize::MAX as usize].into(),
+                dtype: onnx::DataType::INT64,
+                expected: Err(
+                    "in node \"init\": graph error: initializer shape is too large".into(),
                 ),
             },
             // Data types which require copying and converting external data.
